@@ -1,6 +1,16 @@
 package props
 
 import (
+	"context"
+	"net/http"
+	"net/http/httptest"
+	"os"
+	"sync"
+
+	"k8s.io/client-go/rest"
+
+	ctlconfig "github.com/jcmoraisjr/haproxy-ingress/pkg/controller/config"
+
 	"fmt"
 	"strings"
 	"testing"
@@ -31,6 +41,10 @@ type C19Case struct {
 	// "tcp-ingress" (an ingress with tcp-service-port) and "default-backend-service" (annotation of the
 	// Service named by --default-backend-service)
 	Extra []C19Snippet `json:"extra,omitempty"`
+	// CLI: when set, the deny list reaches the controller the way an operator writes it: this value of
+	// --disable-config-keywords (the keywords above with blanks around the commas) is parsed by the controller's
+	// own command line handling (config.CreateWithConfig)
+	CLI string `json:"cli,omitempty"`
 	// SameName: the tcp ingress has the namespace/name of the default backend's Service (two sources of distinct
 	// kinds with the same full name)
 	SameName bool `json:"sameName,omitempty"`
@@ -107,6 +121,17 @@ func genC19(t *rapid.T) C19Case {
 		}
 	}
 	c.SameName = len(c.Extra) == 2 && rapid.Bool().Draw(t, "samename")
+	if len(c.Keywords) > 0 && chanceT(t, "cli", 12) {
+		for i, k := range c.Keywords {
+			if i > 0 {
+				c.CLI += rapid.SampledFrom([]string{",", ", ", ", ", " ,", " , "}).Draw(t, "clisep")
+			}
+			c.CLI += k
+		}
+		if c.CLI == "" {
+			c.CLI = " "
+		}
+	}
 	return c
 }
 
@@ -206,10 +231,60 @@ func c19Verdict(keywords []string, sn C19Snippet) string {
 // lineKey identifies a snippet line inside the parsed section (token sequence).
 func lineKey(line string) string { return strings.Join(hapcfg.Tokenize(line), " ") }
 
+var c19CLIMemo = struct {
+	sync.Mutex
+	m map[string][]string
+}{m: map[string][]string{}}
+
+// c19CLIKeywords gives the value of --disable-config-keywords to the controller's own option handling and returns
+// the list it configures (config.Config.DisableKeywords, which services.go copies to the converters).
+func c19CLIKeywords(value string) ([]string, error) {
+	c19CLIMemo.Lock()
+	defer c19CLIMemo.Unlock()
+	if kws, ok := c19CLIMemo.m[value]; ok {
+		return kws, nil
+	}
+	// the only api call CreateWithConfig makes with these options is a service list
+	apiserver := httptest.NewServer(http.HandlerFunc(func(w http.ResponseWriter, r *http.Request) {
+		w.Header().Set("Content-Type", "application/json")
+		if strings.HasSuffix(r.URL.Path, "/services") {
+			_, _ = w.Write([]byte(`{"kind":"ServiceList","apiVersion":"v1","metadata":{},"items":[]}`))
+			return
+		}
+		w.WriteHeader(http.StatusNotFound)
+		_, _ = w.Write([]byte(`{"kind":"Status","apiVersion":"v1","status":"Failure","reason":"NotFound","code":404}`))
+	}))
+	defer apiserver.Close()
+	dir, err := os.MkdirTemp("", "c19cli")
+	if err != nil {
+		return nil, err
+	}
+	defer os.RemoveAll(dir)
+	opt := ctlconfig.NewOptions()
+	opt.UpdateStatus = false
+	opt.WatchGateway = false
+	opt.LocalFSPrefix = dir
+	opt.DisableConfigKeywords = value
+	cfg, err := ctlconfig.CreateWithConfig(context.Background(), &rest.Config{Host: apiserver.URL}, opt)
+	if err != nil {
+		return nil, err
+	}
+	c19CLIMemo.m[value] = cfg.DisableKeywords
+	return cfg.DisableKeywords, nil
+}
+
 func execC19(c C19Case) *Failure {
 	st := getStats("C19")
 	objs := c19World(c)
 	params := ctlsim.Params{DisableKeywords: c.Keywords, Shards: c.Shards}
+	if c.CLI != "" {
+		kws, err := c19CLIKeywords(c.CLI)
+		if err != nil {
+			panic(err)
+		}
+		params.DisableKeywords = kws
+		st.Count("deny_list_parsed_from_command_line", 1)
+	}
 	for _, sn := range c.Extra {
 		if sn.On == "default-backend-service" {
 			params.DefaultBackend = "a/s3"
